@@ -1,6 +1,6 @@
 /-
   C03 — property theorems.  Code model: `Model/C03.lean`; specification: `Found/SimSpec.lean`,
-  `Found/Dist.lean`; helper lemmas: `Lemmas/C03.lean`.  Distributions are association lists read
+  `Found/Dist.lean`; helper lemmas: `Lemmas/C03*.lean`; sections 10–11: `Model/C03Prec.lean`, `Model/C03Evolve.lean`.  Distributions are association lists read
   through `Dist.get` (the probability of an outcome = the sum over equal keys), amplitude lists
   through `ampGet`.  What is not proved is listed at the end.
 -/
@@ -10,6 +10,7 @@ import PercevalModel.Lemmas.C03Mass
 import PercevalModel.Lemmas.C03More
 import PercevalModel.Lemmas.C03Dm
 import PercevalModel.Lemmas.C03Prec
+import PercevalModel.Lemmas.C03Evolve
 import PercevalModel.Props.C02
 import Mathlib.LinearAlgebra.Matrix.ConjTranspose
 
@@ -1505,19 +1506,184 @@ example :
 example : sqrtUp (1 / 4) = 500000000000001 / 1000000000000000 ∧ sqrtUp 0 = 0 := by
   constructor <;> decide +kernel
 
+/-! ## 11. `Simulator.evolve` / `evolve_svd` at amplitude level
+
+`evolveRaw U ψ` is the vector `_evolve_no_compute` builds before `post_select_statevector` normalises it
+(`contribs`: the components added term after term; `gatherAmps`: equal annotated outputs meet), `outNorm2` its squared
+norm, `probsOfEvolve` the squared moduli of the normalised vector (`_to_bsd(evolve(ψ))`), `evolveSvd` the members of
+`evolve_svd`'s result.  The native cut of small components is a parameter (`evolve_cut_bound`). -/
+
+/-- **evolve is linear, amplitude by amplitude**: before the normalisation, `evolve(a·ψ₁ + b·ψ₂)` has on every
+annotated output the amplitude `a·evolve(ψ₁) + b·evolve(ψ₂)` has — any complex `a`, `b`, any superpositions
+(equal or unequal photon numbers, any tags, common basis states allowed: their amplitudes add) -/
+theorem evolve_superposition {m : ℕ} (U : Matrix (Fin m) (Fin m) GQ) (a b : GQ) (ψ₁ ψ₂ : List Term)
+    (k : List Fock) :
+    ampGet (evolveRaw U (superpose a ψ₁ b ψ₂)) k =
+      a * ampGet (evolveRaw U ψ₁) k + b * ampGet (evolveRaw U ψ₂) k := by
+  unfold evolveRaw contribs superpose smulTerms
+  rw [ampGet_gatherAmps, ampGet_gatherAmps, ampGet_gatherAmps, List.map_append, evolve_add,
+    List.map_map, List.map_map]
+  have h := evolve_smul U a (ψ₁.map toTermR) k
+  have h' := evolve_smul U b (ψ₂.map toTermR) k
+  rw [List.map_map] at h h'
+  rw [← h, ← h']
+  rfl
+
+/-- the un-normalised evolved vector is the shared specification's amplitude list -/
+theorem evolveRaw_eq_spec {m : ℕ} (U : Matrix (Fin m) (Fin m) GQ) (terms : List Term) :
+    evolveRaw U terms = svAmps U terms := evolve_eq_spec U terms
+
+/-- **a unitary circuit preserves the norm**: the squared norm of the evolved vector is the squared norm of the
+input — what `post_select_statevector` divides by is the input's norm (pairwise distinct basis states, `m`-mode
+groups, a non-zero vector) -/
+theorem evolve_preserves_norm {m : ℕ} (U : Matrix (Fin m) (Fin m) GQ) (hU : IsUnitary U)
+    (terms : List Term) (hlen : ∀ t ∈ terms, ∀ s ∈ t.groups, s.length = m)
+    (hnd : (terms.map (·.groups)).Nodup) (hN : svNorm2 terms ≠ 0) :
+    outNorm2 U terms = svNorm2 terms := by
+  have h := probsSV_mass_one U hU terms hlen hnd hN
+  unfold probsSV at h
+  rw [mass_map_div (svAmps U terms) (fun p => flattenTuple m p.1)
+    (fun p => GQ.normSq p.2 / (((p.1.map prodFact).prod : ℕ) : ℚ)) (svNorm2 terms)] at h
+  unfold outNorm2
+  rw [evolveRaw_eq_spec]
+  exact (div_eq_one_iff_eq hN).1 h
+
+/-- **`probs` of the evolved vector is `probsSV`**: `_to_bsd(evolve(ψ))` — the squared moduli of the normalised
+output of `evolve` — is the specification's distribution of `ψ`, entry by entry -/
+theorem probsOfEvolve_eq_probsSV {m : ℕ} (U : Matrix (Fin m) (Fin m) GQ) (hU : IsUnitary U)
+    (terms : List Term) (hlen : ∀ t ∈ terms, ∀ s ∈ t.groups, s.length = m)
+    (hnd : (terms.map (·.groups)).Nodup) (hN : svNorm2 terms ≠ 0) :
+    probsOfEvolve U terms = probsSV U terms := by
+  unfold probsOfEvolve probsSV
+  rw [evolve_preserves_norm U hU terms hlen hnd hN, evolveRaw_eq_spec]
+
+/-- **`evolve_svd` is the mixture of the members' `evolve`s**: measuring the distribution of vectors it returns
+gives the normalised specification mixture; with weights summing to 1, `∑ᵢ wᵢ · probsSV(memberᵢ)` for every
+outcome -/
+theorem evolveSvd_is_mixture {m : ℕ} (U : Matrix (Fin m) (Fin m) GQ) (hU : IsUnitary U)
+    (ms : List Member) (hok : ∀ mb ∈ ms, MemberOK m mb) :
+    (∀ e ∈ (evolveSvd U ms).zip ms, e.1.w = e.2.w ∧ e.1.amps = svAmps U e.2.terms ∧ e.1.norm2 = svNorm2 e.2.terms) ∧
+    probsOfEvolveSvd U ms = normalize (probsSVD U (ms.map fun mb => (mb.w, mb.terms))) ∧
+    ((ms.map (·.w)).sum = 1 → ∀ t, get (probsOfEvolveSvd U ms) t =
+      (ms.map fun mb => mb.w * get (probsSV U mb.terms) t).sum) := by
+  have hmem : ∀ mb ∈ ms, probsOfEvolve U mb.terms = probsSV U mb.terms := fun mb hmb =>
+    probsOfEvolve_eq_probsSV U hU mb.terms (hok mb hmb).1 (hok mb hmb).2.1 (hok mb hmb).2.2
+  have hlist : (ms.map fun mb => (mb.w, probsOfEvolve U mb.terms)) =
+      (ms.map fun mb => (mb.w, mb.terms)).map fun p => (p.1, probsSV U p.2) := by
+    rw [List.map_map]
+    apply List.map_congr_left
+    intro mb hmb
+    simp only [Function.comp_apply, hmem mb hmb]
+  refine ⟨?_, ?_, ?_⟩
+  · intro e he
+    unfold evolveSvd at he
+    rw [List.zip_map_left, List.mem_map] at he
+    obtain ⟨⟨x, y⟩, hxy, rfl⟩ := he
+    have hx : x = y := by
+      have := List.of_mem_zip hxy
+      clear hmem hlist
+      induction ms with
+      | nil => simp at hxy
+      | cons z r ih =>
+        simp only [List.zip_cons_cons, List.mem_cons, Prod.mk.injEq] at hxy
+        rcases hxy with ⟨rfl, rfl⟩ | h
+        · rfl
+        · exact ih (fun mb h' => hok mb (List.mem_cons_of_mem _ h')) h (List.of_mem_zip h)
+    subst hx
+    have hx : x ∈ ms := (List.of_mem_zip hxy).1
+    exact ⟨rfl, evolveRaw_eq_spec U x.terms,
+      evolve_preserves_norm U hU x.terms (hok x hx).1 (hok x hx).2.1 (hok x hx).2.2⟩
+  · unfold probsOfEvolveSvd probsSVD
+    rw [hlist]
+  · intro hsum t
+    have hone : mass (probsSVD U (ms.map fun mb => (mb.w, mb.terms))) = 1 := by
+      apply probsSVD_mass_one U hU
+      · intro p hp
+        obtain ⟨mb, hmb, rfl⟩ := List.mem_map.1 hp
+        exact hok mb hmb
+      · rw [List.map_map]; exact hsum
+    unfold probsOfEvolveSvd
+    rw [hlist]
+    show get (normalize (probsSVD U (ms.map fun mb => (mb.w, mb.terms)))) t = _
+    rw [normalize_of_mass_one _ hone]
+    unfold probsSVD
+    rw [get_mix, List.map_map, List.map_map]
+    rfl
+
+/-- **the native cut, whichever components it takes**: split the components `evolve` adds up into kept and lost
+ones in ANY way such that every lost one is below the cut (squared modulus on the real scale `< cut2`): the amplitude
+of every annotated output then differs from the exact one by at most `lossAt` — the sum of the moduli of ALL
+components of that output below the cut (squared, with upper square roots: `|Δ|² ≤ lossAt²`) -/
+theorem evolve_cut_bound {m : ℕ} (U : Matrix (Fin m) (Fin m) GQ) (cut2 : ℚ) (terms : List Term)
+    (kept lost : Amps GQ) (hperm : (kept ++ lost).Perm (contribs U terms))
+    (hsmall : ∀ x ∈ lost, smallC cut2 (svNorm2 terms) x = true) (k : List Fock) :
+    GQ.normSq (ampGet (evolveRaw U terms) k - ampGet kept k) * keyScale (svNorm2 terms) k ≤
+      (lossAt U cut2 terms k) ^ 2 := by
+  have hc : 0 ≤ keyScale (svNorm2 terms) k := keyScale_nonneg _ (svNorm2_nonneg _) k
+  have hdiff : ampGet (evolveRaw U terms) k - ampGet kept k = ((lost.filter (·.1 == k)).map (·.2)).sum := by
+    unfold evolveRaw
+    rw [ampGet_gatherAmps, ← ampGet_perm hperm k, ampGet_append]
+    unfold ampGet
+    ring
+  rw [hdiff]
+  refine (normSq_sum_le _ _ hc).trans ?_
+  have hS0 : 0 ≤ (((lost.filter (·.1 == k)).map (·.2)).map fun z =>
+      sqrtUp (GQ.normSq z * keyScale (svNorm2 terms) k)).sum := by
+    apply List.sum_nonneg
+    intro x hx
+    obtain ⟨y, _, rfl⟩ := List.mem_map.1 hx
+    exact sqrtUp_nonneg _
+  apply pow_le_pow_left₀ hS0
+  rw [List.map_map]
+  have hfil : lost.filter (·.1 == k) =
+      lost.filter fun x => x.1 == k && smallC cut2 (svNorm2 terms) x := by
+    apply List.filter_congr
+    intro x hx
+    rw [hsmall x hx, Bool.and_true]
+  rw [hfil]
+  unfold lossAt lossOf
+  exact sum_filter_le_of_perm hperm _ _ fun x => sqrtUp_nonneg _
+
+/-- with the cut at 0 nothing can be lost: the bound is 0 -/
+theorem lossAt_zero {m : ℕ} (U : Matrix (Fin m) (Fin m) GQ) (terms : List Term) (k : List Fock) :
+    lossAt U 0 terms k = 0 := by
+  unfold lossAt lossOf
+  have : ((contribs U terms).filter fun x => x.1 == k && smallC 0 (svNorm2 terms) x) = [] := by
+    apply List.filter_eq_nil_iff.2
+    intro x _
+    have : ¬ (GQ.normSq x.2 * keyScale (svNorm2 terms) x.1 < 0) :=
+      not_lt.2 (mul_nonneg (normSq_nonneg _) (keyScale_nonneg _ (svNorm2_nonneg _) _))
+    simp [smallC, this]
+  rw [this]; rfl
+
+/-! non-vacuity of section 11: `exSV` behind the unitary `exU` satisfies every hypothesis of
+`evolve_preserves_norm` / `probsOfEvolve_eq_probsSV` / `evolveSvd_is_mixture` (`exSV_ok`, `exU_isUnitary`) -/
+example : outNorm2 PM.C02.exU exSV = svNorm2 exSV :=
+  evolve_preserves_norm _ exU_isUnitary _ exSV_ok.1 exSV_ok.2.1 exSV_ok.2.2
+
+example : probsOfEvolve PM.C02.exU exSV = probsSV PM.C02.exU exSV :=
+  probsOfEvolve_eq_probsSV _ exU_isUnitary _ exSV_ok.1 exSV_ok.2.1 exSV_ok.2.2
+
+/-- `evolve_cut_bound`: losing nothing is one admissible choice (`kept` = all components) -/
+example {m : ℕ} (U : Matrix (Fin m) (Fin m) GQ) (terms : List Term) :
+    (contribs U terms ++ []).Perm (contribs U terms) ∧
+      ∀ x ∈ ([] : Amps GQ), smallC (1 / 10 ^ 12) (svNorm2 terms) x = true := by
+  refine ⟨by simp, ?_⟩
+  intro x hx; cases hx
+
 /-!
 Not proved here (validated by the correspondence on every run):
-* a bound on the OUTPUT probabilities for the internal product/amplitude thresholds of
-  `list_tensor_product` / `_merge_sv` at a NON-ZERO precision (`innerTP θ`, `memberGenericθ U θ`, `θ > 0`): what
-  one recombination leaves out is characterised exactly (`merge_threshold_exact`,
-  `merge_threshold_drops_only_small`, `merge_threshold_dropped_mass`, `evolveTermθ_antitone`), but the
-  propagation through the coherent sum of the terms and the final normalisation is evaluated
-  numerically per case by the harness (`precision_budget`), not proved; the input trimming of
-  `_preprocess_svd` is bounded by `trim_error_bound`.  At precision 0 nothing is left: `probsSvd_exact`;
-* `preprocess` at a non-zero precision / `min_p` (the second application of the threshold after the split):
-  executed and compared only;
+* that the IMPLEMENTATION leaves out at a non-zero precision exactly what the model leaves out: sections 10 bounds
+  the modelled algorithm (`probsSvd_precision_bound`), the harness compares `Simulator.probs_svd` with the exact
+  mixture under that bound and with the model's own thresholded result at 1e-9;
+* the hypotheses `mass (rawSvd …) ≠ 0` / `errTot < 1` involve permanents, which the kernel does not evaluate: their
+  non-vacuity is witnessed by the driver on every run (required branch `prec-theorem-applies`);
+* the native cut of small components: `evolve_cut_bound` bounds every amplitude BEFORE the final normalisation, for
+  every admissible choice of lost components; the rescaling of all amplitudes by the norm the cut took away is
+  evaluated numerically by the harness (`loss_profile`), not proved; which components the native container discards
+  is not modelled;
 * the identity of two multi-component state vectors as dict keys (native float comparison): not modelled
-  (distinct keys in `sameKey`).
+  (distinct keys in `sameKey`); states mixing tagged and un-tagged photons (native `separate_state` rule).
 -/
 
 end PM.C03
